@@ -419,6 +419,34 @@ fn collect_oracles(report: &Value, pid: i32, blamed: i32, p: &mdparse::Parsed, i
         }
     }
     o["mem_compare"] = json!(mems);
+    // per thread: the captured stack from the stack pointer upward vs. target memory
+    let mut spc = Vec::new();
+    if let Some(ths) = p.streams.get("threads").and_then(|t| t["threads"].as_array()) {
+        for th in ths {
+            let (s, z, rv) = (th["stack_start"].as_u64().unwrap_or(0), th["stack_size"].as_u64().unwrap_or(0) as usize, th["stack_rva"].as_u64().unwrap_or(0) as usize);
+            if z == 0 { continue; }
+            let rsp = th["ctx"]["rsp"].as_str().and_then(|h| u64::from_str_radix(h, 16).ok()).unwrap_or(0);
+            let from = if rsp >= s && rsp < s + z as u64 { (rsp - s) as usize } else { 0 };
+            if let Some(b) = img.get(rv + from..rv + z) {
+                let (rl, mis) = target::compare_mem(pid, s + from as u64, b);
+                spc.push(json!({"tid": th["tid"], "from": from, "readable": rl, "mismatch": mis}));
+            }
+        }
+    }
+    o["sp_compare"] = json!(spc);
+    // the live stack memory of every parked thread from its (aligned-up) stack pointer to the end of its stack mapping
+    let mut sm = Vec::new();
+    for t in report["threads"].as_array().cloned().unwrap_or_default() {
+        if t["mode"].as_str() != Some("pause") { continue; }
+        let (sp, st, ln) = (t["sp"].as_u64().unwrap_or(0), t["stack_start"].as_u64().unwrap_or(0), t["stack_len"].as_u64().unwrap_or(0));
+        let a = (sp + 7) & !7;
+        if a >= st && a < st + ln && ln <= 64 * 4096 {
+            if let Some(m) = target::read_mem(pid, a, (st + ln - a) as usize) {
+                sm.push(json!({"tid": t["tid"], "from": a, "hex": mdparse::hexs(&m)}));
+            }
+        }
+    }
+    o["stack_mem"] = json!(sm);
     if want_regs {
         let mut regs = serde_json::Map::new();
         for t in report["threads"].as_array().cloned().unwrap_or_default() {
